@@ -47,34 +47,44 @@ def parseHeader (file : Bytes) : Except PyErr Header := do
 
 def textErr : TextErr → PyErr := fun _ => .ValueError
 
+/-- the delimiter `read_fcs_text_segment` works with: the argument, or the first byte of the segment.
+`delim`: none = argument None; some none = the empty string ''; some (some c). -/
+def resolveDelim (file : Bytes) (bgn : Int) (delim : Option (Option Nat)) (supp : Bool) : Except PyErr (Option Nat) :=
+  match delim with
+  | some (some c) => .ok (some c)
+  | some none => .ok none
+  | none =>
+    if supp then .error .ValueError
+    else match readAt file bgn 1 with
+      | .ok b => .ok b.head?
+      | .error e => .error e
+
+/-- the rest of `read_fcs_text_segment` once the delimiter is known -/
+def readTextBody (file : Bytes) (bgn endo : Int) (delim : Option Nat) (supp : Bool) :
+    Except PyErr (Dict × Option Nat × Bool) :=
+  match readAt file bgn (endo + 1 - bgn) with
+  | .error e => .error e
+  | .ok raw =>
+    -- a short read (file ends inside the segment) is refused
+    if (raw.length : Int) < endo + 1 - bgn then .error .ValueError
+    else if raw == [] then .ok ([], none, false)
+    else
+      match delim with
+      | none =>
+        -- delimiter is the empty string: `raw[0] != ''` for primary; `split('')` raises for supplemental
+        .error .ValueError
+      | some d =>
+        match parseSeg d supp raw with
+        | .error e => .error (textErr e)
+        | .ok p => .ok (toDict (pairUp p.toks), some d, p.warned)
+
 /-- `read_fcs_text_segment(buf, begin, end, delim, supplemental)` on a file.
 Returns the dictionary, the delimiter (`none` for Python's `None`), and whether a warning was issued. -/
 def readTextSeg (file : Bytes) (bgn endo : Int) (delim : Option (Option Nat)) (supp : Bool) :
-    Except PyErr (Dict × Option Nat × Bool) := do
-  -- `delim`: none = argument None; some none = the empty string '' ; some (some c)
-  let delim : Option Nat ← match delim with
-    | some (some c) => pure (some c)
-    | some none => pure none
-    | none =>
-      if supp then throw .ValueError
-      else do
-        let b ← readAt file bgn 1
-        pure b.head?
-  let raw ← readAt file bgn (endo + 1 - bgn)
-  -- a short read (file ends inside the segment) is refused
-  if (raw.length : Int) < endo + 1 - bgn then throw .ValueError
-  if raw == [] then
-    pure ([], none, false)
-  else
-    match delim with
-    | none =>
-      -- delimiter is the empty string: `raw[0] != ''` for primary; for supplemental `rfind('')` = len(raw)
-      -- and `split('')` raises ValueError (empty separator)
-      throw .ValueError
-    | some d =>
-      match parseSeg d supp raw with
-      | .error e => throw (textErr e)
-      | .ok p => pure (toDict (pairUp p.toks), some d, p.warned)
+    Except PyErr (Dict × Option Nat × Bool) :=
+  match resolveDelim file bgn delim supp with
+  | .error e => .error e
+  | .ok d => readTextBody file bgn endo d supp
 
 def lookup (d : Dict) (k : String) : Except PyErr Bytes :=
   match dictLookup (s2l k) d with
@@ -105,10 +115,9 @@ def rangeBits (s : Bytes) : Except PyErr (Option Nat) :=
 def resultWidth (ws : List Nat) : Nat :=
   if isUniform ws then ws.headD 0 else upcastBits ws
 
-/-- `FCSFile.__init__` -/
-def loadFile (file : Bytes) : Except PyErr Loaded := do
-  let h ← parseHeader file
-  let (text0, delim, w0) ← readTextSeg file h.textBegin h.textEnd none false
+/-- `FCSFile.__init__` after the HEADER and the primary TEXT segment have been read -/
+def loadRest (file : Bytes) (h : Header) (t : Dict × Option Nat × Bool) : Except PyErr Loaded := do
+  let (text0, delim, w0) := t
   let mut text := text0
   let mut warns : List String := if w0 then ["text"] else []
   if isV3 h.version then
@@ -175,5 +184,14 @@ def loadFile (file : Bytes) : Except PyErr Loaded := do
   let data ← readData file db.toNat de.toNat dt tot.toNat wsN big (some bu)
   let width := match dt with | .I => resultWidth wsN | .F => 32 | _ => 64
   pure ⟨text, analysis, data, wsN.length, dt != .I, width, warns⟩
+
+/-- `FCSFile.__init__` -/
+def loadFile (file : Bytes) : Except PyErr Loaded :=
+  match parseHeader file with
+  | .error e => .error e
+  | .ok h =>
+    match readTextSeg file h.textBegin h.textEnd none false with
+    | .error e => .error e
+    | .ok t => loadRest file h t
 
 end FlowCal.File
